@@ -19,25 +19,61 @@ def run(ctx, rep):
     rep.rule('R-C01-4', 'fix reaches a creating effect for every recorded entity kind: file data, empty file, symlink, hardlink, directory, ancestors', 6)
     C04.memhash_pairing(P, rep, 'R-C01-5')
     n = 0
+    # roles instead of names: the disk count is the local filled by handle_mapping (or a parameter that every caller feeds with it);
+    # the buffer vector is one and the same local/parameter for every raid_* call of a function
+    def behind(f, o):
+        """the alloca (local or spilled parameter) an operand is loaded from"""
+        i = f.inst_of(o)
+        while i is not None and i.op in ('load', 'zext', 'sext', 'trunc', 'bitcast'):
+            j = f.inst_of(i.ops[0])
+            if i.op == 'load' and j is not None and j.op == 'alloca':
+                return j
+            i = j
+        return None
+    count_roles = {}     # function name -> set of alloca ids holding the mapped disk count
+    for f in P.defined():
+        for hm in f.calls('handle_mapping'):
+            al = f.inst_of(hm.ops[1])
+            if al is not None and al.op == 'alloca':
+                count_roles.setdefault(f.name, set()).add(al.id)
+    changed = True
+    while changed:
+        changed = False
+        for f in P.defined():
+            for c in f.calls():
+                g = P.functions.get(c.callee_full) if c.callee_full else None
+                if g is None or g.decl:
+                    continue
+                for k, o in enumerate(c.ops[:len(g.args)]):
+                    al = behind(f, o)
+                    if al is not None and al.id in count_roles.get(f.name, ()):
+                        for aid, ak in g.arg_allocas().items():
+                            if ak == k and aid not in count_roles.setdefault(g.name, set()):
+                                count_roles[g.name].add(aid); changed = True
     for fname in ('state_sync_process', 'state_scrub_process', 'state_check_process', 'repair_step', 'is_hash_matching', 'is_parity_matching', 'repair'):
         f = P.fn(fname)
         rep.analysed(f)
+        bufs = set()
         for c in f.calls({'raid_gen', 'raid_rec', 'raid_data'}):
             a = [f.xexpr(o) for o in c.ops]      # expanded: a hoisted `level = state->level` prints as state->level
             if c.callee == 'raid_gen':
-                nd, np_, size, buf = a
+                nd, np_, size, buf = a; o_nd, o_buf = c.ops[0], c.ops[3]
             elif c.callee == 'raid_rec':
-                _, _, nd, np_, size, buf = a
+                _, _, nd, np_, size, buf = a; o_nd, o_buf = c.ops[2], c.ops[5]
             else:
-                _, _, _, nd, size, buf = a
+                _, _, _, nd, size, buf = a; o_nd, o_buf = c.ops[3], c.ops[5]
                 np_ = 'state->level'
-            ok = nd == 'diskmax' and size == 'state->block_size' and buf == 'buffer' and np_ in ('state->level', '(i+1)')
-            rep.check(ok, 'R-C01-1', '%s: %s(nd=%s, np=%s, size=%s, %s)' % (fname, c.callee, nd, np_, size, buf), c.loc(), '', function=fname, construct='%s arguments' % c.callee)
+            al_nd, al_buf = behind(f, o_nd), behind(f, o_buf)
+            ok_nd = al_nd is not None and al_nd.id in count_roles.get(f.name, ())
+            bufs.add(al_buf.id if al_buf is not None else None)
+            ok = ok_nd and size == 'state->block_size' and al_buf is not None and np_ in ('state->level', '(i+1)')
+            rep.check(ok, 'R-C01-1', '%s: %s(nd=%s, np=%s, size=%s, %s)' % (fname, c.callee, nd, np_, size, buf), c.loc(), 'nd is the mapped disk count: %s' % ok_nd, function=fname, construct='%s arguments' % c.callee)
             n += 1
+        rep.check(len(bufs) <= 1 and None not in bufs, 'R-C01-1', '%s: every raid_* call works on the same buffer vector' % fname, f.file, '%d distinct vectors' % len(bufs), function=fname, construct='one buffer vector')
     for fname in ('state_sync_process', 'state_scrub_process', 'state_check_process'):
         f = P.fn(fname)
         hm = list(f.calls('handle_mapping'))
-        rep.check(len(hm) == 1 and f.expr(hm[0].ops[1]) == '&diskmax', 'R-C01-1', '%s: diskmax is the count returned by handle_mapping' % fname, f.file, '', function=fname, construct='diskmax source')
+        rep.check(len(hm) == 1 and f.inst_of(hm[0].ops[1]) is not None and f.inst_of(hm[0].ops[1]).op == 'alloca', 'R-C01-1', '%s: the disk count is the one returned by handle_mapping' % fname, f.file, '', function=fname, construct='diskmax source')
     h = P.fn('handle_mapping')
     rep.analysed(h)
     st = [i for i in h.all_insts() if i.op == 'store' and re.search(r'handle\[map->position\]\.disk$', h.expr(i.ops[1]))]
@@ -84,7 +120,19 @@ def run(ctx, rep):
         d = {}
         for a, p in gs:
             d.setdefault(a, p)
-        ok = d.get('fix') is True and any('buffer_recov[l]' in a and not p for a, p in gs) and 'buffer[(diskmax+l)]' in c.expr(pw[0].ops[2]).replace(' ', '')
+        # the block written is buffer[<mapped disk count> + level]: the parity slot right after the data slots
+        src = c.inst_of(pw[0].ops[2])
+        okslot = False
+        if src is not None and src.op == 'load':
+            gp = c.inst_of(src.ops[0])
+            if gp is not None and gp.op == 'getelementptr' and len(gp.ops) == 2:
+                idx = c.inst_of(gp.ops[1])
+                while idx is not None and idx.op in ('zext', 'sext'):
+                    idx = c.inst_of(idx.ops[0])
+                if idx is not None and idx.op == 'add':
+                    als = [behind(c, o_) for o_ in idx.ops]
+                    okslot = any(al is not None and al.id in count_roles.get(c.name, ()) for al in als) and sum(1 for al in als if al is not None) == 2
+        ok = d.get('fix') is True and any('buffer_recov[' in a and not p for a, p in gs) and okslot
     rep.check(ok, 'R-C01-3', 'fix rewrites every parity level whose on-disk copy was missing or wrong', pw[0].loc() if pw else c.file, '', function='state_check_process', construct='parity rewrite')
     fp = P.fn('file_post')
     ut = list(fp.calls('handle_utime'))
